@@ -45,10 +45,10 @@ register_Color4Array()
 {
     class_<FixedArray<IMATH_NAMESPACE::Color4<T> > > color4Array_class = FixedArray<IMATH_NAMESPACE::Color4<T> >::register_("Fixed length array of IMATH_NAMESPACE::Color4");
     color4Array_class
-        .add_property("r",&Color4Array_get<T,0>)
-        .add_property("g",&Color4Array_get<T,1>)
-        .add_property("b",&Color4Array_get<T,2>)
-        .add_property("a",&Color4Array_get<T,3>)
+        .add_property("r",boost::python::make_function(&Color4Array_get<T,0>,boost::python::with_custodian_and_ward_postcall<0,1>()))
+        .add_property("g",boost::python::make_function(&Color4Array_get<T,1>,boost::python::with_custodian_and_ward_postcall<0,1>()))
+        .add_property("b",boost::python::make_function(&Color4Array_get<T,2>,boost::python::with_custodian_and_ward_postcall<0,1>()))
+        .add_property("a",boost::python::make_function(&Color4Array_get<T,3>,boost::python::with_custodian_and_ward_postcall<0,1>()))
         ;
 
     return color4Array_class;
